@@ -16,21 +16,22 @@ import (
 
 // clientTxnSys binds spec/ClientTxn.tla to a real turn.Client over a scripted PacketConn.
 type clientTxnSys struct {
-	net     *MemNet
-	cconn   *MemConn
-	server  *MemConn
-	saddr   *net.UDPAddr
-	cl      *turn.Client
-	seed    int64
-	txid    map[string][stun.TransactionIDSize]byte
-	name    map[[stun.TransactionIDSize]byte]string
-	writes  map[string]int // transmissions per transaction, counted at the client's socket
-	failAt  map[string]int
-	retMu   sync.Mutex
-	rets    []Obs
-	started map[string]bool
-	rto     time.Duration
-	slow    map[string]chan struct{} // first write of t is parked until released
+	net                 *MemNet
+	cconn               *MemConn
+	server              *MemConn
+	saddr               *net.UDPAddr
+	cl                  *turn.Client
+	seed                int64
+	txid                map[string][stun.TransactionIDSize]byte
+	name                map[[stun.TransactionIDSize]byte]string
+	writes              map[string]int // transmissions per transaction, counted at the client's socket
+	failAt              map[string]int
+	retMu               sync.Mutex
+	rets                []Obs
+	nStarted, nReturned int
+	started             map[string]bool
+	rto                 time.Duration
+	slow                map[string]chan struct{} // first write of t is parked until released
 }
 
 var errInjectedWrite = errors.New("memnet: injected write error")
@@ -76,6 +77,22 @@ func newClientTxnSys(meta Meta, seed int64, _ any) (Sys, error) {
 	return s, cl.Listen()
 }
 
+// Stuck is asked after a divergence: the client is closed and ten seconds pass; a PerformTransaction that has
+// still not returned never will (its caller waits for a result nobody can deliver any more).
+func (s *clientTxnSys) Stuck(wait func()) string {
+	s.Close()
+	wait()
+	time.Sleep(10 * time.Second)
+	wait()
+	s.retMu.Lock()
+	defer s.retMu.Unlock()
+	if s.nReturned < s.nStarted {
+		return fmt.Sprintf("%d of %d PerformTransaction calls have not returned 10 s after Client.Close: they wait for a result that can no longer be delivered", s.nStarted-s.nReturned, s.nStarted)
+	}
+
+	return ""
+}
+
 func (s *clientTxnSys) Close() {
 	for t, ch := range s.slow {
 		close(ch)
@@ -115,8 +132,16 @@ func (s *clientTxnSys) Do(a map[string]any, wait func()) ([]Obs, error) {
 		}
 		msg := stun.MustBuild(txidSetter(id), stun.BindingRequest)
 		s.started[t] = true
+		s.retMu.Lock()
+		s.nStarted++
+		s.retMu.Unlock()
 		go func() {
 			res, err := s.cl.PerformTransaction(msg, s.saddr, false)
+			defer func() {
+				s.retMu.Lock()
+				s.nReturned++
+				s.retMu.Unlock()
+			}()
 			o := Obs{"k": "ret", "t": t, "at": time.Now()}
 			switch {
 			case err == nil && res.Msg != nil && res.Msg.TransactionID == id:
